@@ -285,7 +285,7 @@ def run_correspondence(ck, known):
 # ---------------------------------------------------------------------- tree-level tie (theorems through SqlRender.v)
 LOGQL_CTX = {"from_ns": 1700000000 * 10**9, "to_ns": 1700003600 * 10**9, "limit": 100, "asc": False, "cluster": False,
              "type": 1, "finalize": True, "step_ms": 1000}
-# model/LogqlPlan.v returns None for a pipeline with line_format ("LineFormatPlanner: not transcribed yet", C08's model)
+# model/LogqlPlan.v plans line_format since builder b4-lf (PLineFormatP); these sites are skipped only when the model has no statement (a template outside the fragment of model/LogqlTemplate.v)
 NOT_PLANNED_BY_MODEL = {"logql.lineformat.direct", "logql.lineformat.tmpl"}
 SPECIAL = b"'\\\x00\n\r\x08\t\x1a"
 
